@@ -275,7 +275,7 @@ def main():
             rec["status"] = f"patch-does-not-apply (occurrences={cnt})"
             results.append(rec); print(rec); continue
         open(p, "w").write(s.replace(old, new))
-        t = sh(f"cd {SCRATCH} && cargo nextest run --workspace --no-fail-fast --offline 2>&1 | tail -3", env=env)
+        t = sh(f"cd {SCRATCH} && timeout 400 cargo nextest run --workspace --no-fail-fast --offline 2>&1 | tail -3", env=env)
         out = t.stdout
         if "229 passed" not in out:
             rec["status"] = "not-test-surviving"
